@@ -67,6 +67,12 @@ pub fn notification(method: &str, params: Value) -> Value {
     json!({ "jsonrpc": "2.0", "method": method, "params": params })
 }
 
+/// document versions increase with every change, not always by one (LSP only demands "increase")
+pub fn next_version(v: &mut i64) -> i64 {
+    *v += if *v % 3 == 0 { 3 } else { 1 };
+    *v
+}
+
 pub fn initialize_params(diagnostics: bool) -> Value {
     if diagnostics {
         json!({ "capabilities": { "textDocument": { "publishDiagnostics": {} } } })
